@@ -17,7 +17,7 @@ def run(ctx):
         m1, m2 = (int(init[0].split()[3]), int(init[0].split()[4])) if init else (0, 0)
         out = SC.mon_sanity(tr) + SC.mon_limits(tr, m1, m2)
         out += [h for h in SC.mon_outbound(tr) if h[0] in ("outbound:id-reuse",)]
-        out += SC.mon_unordered_ids(tr)
+        out += SC.mon_unordered_ids(tr) + SC.mon_slots(tr)
         return out
     v, stats, hist, samples, nd = SC.run_property(ctx, MODULE, PROFILE, 250, 4000, [mon], keep, length=(10, 40))
     return SC.finish(ctx, v, stats, hist, samples, nd,
